@@ -193,11 +193,14 @@ class _Quadrature(torch.autograd.Function):
                 # are still the same objects as the objects outside
                 with torch.enable_grad():
                     f = fcn(x, *params)
-                dfdts = torch.autograd.grad(f, tensor_params,
-                                            grad_outputs=grad_ys,
-                                            retain_graph=True,
-                                            create_graph=torch.is_grad_enabled(),
-                                            allow_unused=True)
+                if f.requires_grad:
+                    dfdts = torch.autograd.grad(f, tensor_params,
+                                                grad_outputs=grad_ys,
+                                                retain_graph=True,
+                                                create_graph=torch.is_grad_enabled(),
+                                                allow_unused=True)
+                else:
+                    dfdts = [None for _ in tensor_params]
                 # tensors that do not influence the integrand get a zero gradient
                 dfdts = convert_none_grads_to_zeros(dfdts, tensor_params)
                 return dfdts
